@@ -22,6 +22,7 @@ def spec_step(row, st0, instr, iset, oplen, mem=None, fix=None):
         unpred = lor(unpred, row.unpred(f, base))
     undef = row.undef(f, base) if row.undef is not None else False
     if getattr(row, 'unconditional', False):
+        # no condition field and not permitted in an IT block (the row's operation flags that UNPREDICTABLE)
         passed, cu = True, False
     else:
         passed, cu = PSR.condition_passed(iset, instr, oplen, st0['cpsr'])
